@@ -34,6 +34,7 @@ pub fn exec_look(ops: Vec<Op>, probes: Vec<(ATerm, &'static str)>, seed: u64) ->
     let r = in_fresh_thread(move || {
         intern_names();
         fresh_noise(&enc_ops(&line_ops));
+        crate::suites::eg::warm_up(&enc_ops(&line_ops));
         let mut rng = Rng::new(seed);
         let mut eg: EGraph<Main> = EGraph::default();
         let mut tracked: Vec<AppliedId> = Vec::new();
